@@ -159,6 +159,7 @@ package x509
 //@   (loop 2 (invariant any true))
 //@   (loop 3 (invariant any true))
 //@   (ghost-havoc host.ok host.cert sig.ok sig.key sig.tbs sig.sig)
+//@   (ghost-set x509.okverifies (ite (isnil err) (bvadd (old (ghost x509.okverifies)) 1) (old (ghost x509.okverifies))))
 //@   (ensures critical (=> (isnil err) (= (old (len (field c UnhandledCriticalExtensions))) 0)))
 //@   (ensures window (=> (and (isnil err) (not (time.iszero (field (field opts0 CurrentTime) wall) (field (field opts0 CurrentTime) ext))))
 //@                       (and (not (tbefore (field opts0 CurrentTime) (old (field c NotBefore)))) (not (tafter (field opts0 CurrentTime) (old (field c NotAfter)))))))
@@ -213,3 +214,7 @@ package x509
 //@   (ensures fill (=> (isnil result.1) (forall ((j B64)) (=> (and (bvuge j (len data)) (bvult j (len result.0)))
 //@                                         (= (at result.0 j) ((_ extract 7 0) (bvsub (len result.0) (len data))))))))
 //@   (modifies (spare data)))
+
+// (trusted frame, used by the TLS gating contracts: the certificate parser writes only memory it allocates)
+//@ (func ParseCertificate trusted
+//@   (ensures either (= (isnil result.0) (not (isnil result.1)))))
